@@ -243,23 +243,14 @@ void lerr_fatal (const char *msg, ...)
 }
 
 
-/* line_directive_out - spit out a "#line" statement or equivalent */
-void line_directive_out (FILE *output_file, char *path, int linenum)
+static const char *trace_fmt = "m4_ifdef([[M4_HOOK_TRACE_LINE_FORMAT]], [[M4_HOOK_TRACE_LINE_FORMAT([[%d]], [[%s]])]])";
+
+/* linedir_file_name - copy a file name as it has to appear between the quotes
+ * of a "#line" statement
+ */
+static void linedir_file_name (char *filename, size_t size, const char *s1)
 {
-	char	*trace_fmt = "m4_ifdef([[M4_HOOK_TRACE_LINE_FORMAT]], [[M4_HOOK_TRACE_LINE_FORMAT([[%d]], [[%s]])]])";
-	char    directive[MAXLINE*2], filename[MAXLINE];
-	char   *s1, *s2, *s3;
-
-	if (!ctrl.gen_line_dirs)
-		return;
-
-	s1 = (path != NULL) ? path : "M4_YY_OUTFILE_NAME";
-
-	if ((path != NULL) && !s1)
-		s1 = "<stdin>";
-    
-	s2 = filename;
-	s3 = &filename[sizeof (filename) - 2];
+	char   *s2 = filename, *s3 = &filename[size - 2];
 
 	while (s2 < s3 && *s1) {
 		if (*s1 == '\\' || *s1 == '"')
@@ -270,6 +261,34 @@ void line_directive_out (FILE *output_file, char *path, int linenum)
 	}
 
 	*s2 = '\0';
+}
+
+/* line_directive_str - the text of a "#line" statement or equivalent for
+ * a line of the input file
+ */
+void line_directive_str (char *directive, size_t size, const char *path, int linenum)
+{
+	char    filename[MAXLINE];
+
+	linedir_file_name (filename, sizeof (filename), path);
+	snprintf (directive, size, trace_fmt, linenum, filename);
+}
+
+/* line_directive_out - spit out a "#line" statement or equivalent */
+void line_directive_out (FILE *output_file, char *path, int linenum)
+{
+	char    directive[MAXLINE*2], filename[MAXLINE];
+	char   *s1;
+
+	if (!ctrl.gen_line_dirs)
+		return;
+
+	s1 = (path != NULL) ? path : "M4_YY_OUTFILE_NAME";
+
+	if ((path != NULL) && !s1)
+		s1 = "<stdin>";
+    
+	linedir_file_name (filename, sizeof (filename), s1);
 
 	if (path != NULL)
 		snprintf (directive, sizeof(directive), trace_fmt, linenum, filename);
